@@ -62,6 +62,8 @@ bool run_problem(ProblemSpec const& spec,
         return false;
     }
 
+    rep.observe(spec.geometry.rfind("gen:", 0) == 0 ? "geometry:generated-nested" : "geometry:bundled");
+    rep.observe(std::string("locator:") + (prob->locator ? "available" : "unavailable"));
     verif::Rng rng(verif::mix_seed(spec.seed, 0xabcdef));
     MonitorOptions mo;
     mo.report_prefix = prop;
